@@ -23,4 +23,8 @@ CHECKS = {
         text='Exactness (iff), raise-iff-infeasible, order independence over all permutations, mask(sig,0)/composition laws and the hide_* flag clauses hold on every signature of the <=3-named universe (1 972 signatures, exhaustive in thorough: 1.7M mask calls compared on 160 call shapes) plus 48k Hypothesis cases with <=5 named parameters.',
         design_ref='DESIGN.md 2/C03', technique='bounded-exhaustive enumeration + Hypothesis vs CPython-binding oracle (iff), metamorphic permutation/composition relations',
         note='Trusted: vlib/cpbind.py (self-checked). Results compared up to keyword-only parameter order (not significant to calls or to inspect equality). Flag clause (f) uses the most lenient reading of "some choice of hidden arguments".'),
+    'C09': dict(
+        text='On all name-aligned ordered pairs of the <=3-named universe (exhaustive in thorough: 346k aligned of 3.9M pairs, 80 call shapes each) merge accepts exactly the non-colliding calls both inputs accept and raises IncompatibleSignatures iff no common call exists; unary/idempotence/neutral-element/round-trip laws on all 4 437 signatures; n-ary = nested on every role-consistent triple of the <=1-named universe, 3M sampled triples of the <=2-named one and 32k constructed Hypothesis tuples.',
+        design_ref='DESIGN.md 2/C09', technique='bounded-exhaustive enumeration + Hypothesis vs CPython-binding oracle (set equality), algebraic-law and fold metamorphic relations',
+        note='Trusted: vlib/cpbind.py (self-checked in C01/C03 runs). Results compared up to keyword-only order. merge(s,s) compared on parameters only (provenance of duplicates is C08).'),
 }
